@@ -56,12 +56,14 @@ func opClient(code int64, e []int64, f int64, r FAddr) hx.Zs {
 	z := append(hx.Zs{code, f}, eaddrEnc(e)...)
 	return append(z, r.enc()...)
 }
-func OpLocalSubscribe(e []int64, f int64, r FAddr) hx.Zs { return opClient(16, e, f, r) }
-func OpLocalBind(e []int64, f int64, r FAddr) hx.Zs      { return opClient(17, e, f, r) }
-func OpHasLocalSub(e []int64, f int64, r FAddr) hx.Zs    { return opClient(18, e, f, r) }
-func OpHasLocalBind(e []int64, f int64, r FAddr) hx.Zs   { return opClient(19, e, f, r) }
-func OpReadData(e []int64, f, fn int64) hx.Zs            { return append(hx.Zs{20, f, fn}, eaddrEnc(e)...) }
-func OpResolve(p, dev int64) hx.Zs                       { return hx.Zs{21, p, dev} }
+func OpLocalSubscribe(e []int64, f int64, r FAddr) hx.Zs   { return opClient(16, e, f, r) }
+func OpLocalBind(e []int64, f int64, r FAddr) hx.Zs        { return opClient(17, e, f, r) }
+func OpLocalUnsubscribe(e []int64, f int64, r FAddr) hx.Zs { return opClient(23, e, f, r) }
+func OpLocalUnbind(e []int64, f int64, r FAddr) hx.Zs      { return opClient(24, e, f, r) }
+func OpHasLocalSub(e []int64, f int64, r FAddr) hx.Zs      { return opClient(18, e, f, r) }
+func OpHasLocalBind(e []int64, f int64, r FAddr) hx.Zs     { return opClient(19, e, f, r) }
+func OpReadData(e []int64, f, fn int64) hx.Zs              { return append(hx.Zs{20, f, fn}, eaddrEnc(e)...) }
+func OpResolve(p, dev int64) hx.Zs                         { return hx.Zs{21, p, dev} }
 
 // OpDuring: while the teardown operation td of one peer runs, the registry call of another peer arrives
 func OpDuring(td, call hx.Zs) hx.Zs {
@@ -72,7 +74,7 @@ func OpDuring(td, call hx.Zs) hx.Zs {
 var OpNames = map[int64]string{1: "add-local-entity", 2: "add-local-feature", 3: "add-function", 4: "connect", 5: "discovery-reply",
 	6: "discovery-notify", 7: "subscribe-call", 8: "subscribe-delete", 9: "bind-call", 10: "bind-delete", 11: "set-data", 12: "write",
 	13: "disconnect", 14: "list-subscriptions", 15: "list-bindings", 16: "local-subscribe", 17: "local-bind", 18: "has-local-sub",
-	19: "has-local-bind", 20: "read-data", 21: "resolve", 22: "teardown-overlapped-by-call"}
+	19: "has-local-bind", 20: "read-data", 21: "resolve", 22: "teardown-overlapped-by-call", 23: "local-unsubscribe", 24: "local-unbind"}
 
 // ---- world plans
 
@@ -411,5 +413,88 @@ func Twins(r *hx.Rng, bind bool) []hx.Zs {
 			change()
 		}
 	}
+	return h
+}
+
+// DeleteOverlap is a history for the atomicity of RemoveSubscription / RemoveBinding: peers with
+// distinct device addresses hold subscriptions (bind = false) or bindings (bind = true); a delete
+// call of one peer is overlapped (operation 22) by a subscribe / bind (sometimes a delete) call of
+// another peer, which arrives while the delete sits between its filter and its store; listings of
+// both peers and a data change follow every overlap.
+func DeleteOverlap(r *hx.Rng, bind bool) []hx.Zs {
+	var h []hx.Zs
+	e := []int64{1}
+	h = append(h, OpAddLocalEntity(e),
+		OpAddLocalFeature(e, 1, 1), OpAddFunction(e, 1, 1, true, true),
+		OpAddLocalFeature(e, 2, 1), OpAddFunction(e, 2, 3, true, true))
+	srv := []FAddr{{Dev: 1, Ent: e, Feat: 2}, {Dev: 1, Ent: e, Feat: 3}}
+	n := int64(r.Range(2, 3))
+	var peers []Peer
+	for k := int64(1); k <= n; k++ {
+		p := Peer{Ski: k, Dev: k, Ents: [][]int64{{0}, {1}}, Feats: []RFeat{{Ent: []int64{0}, Id: 0, Type: 5, Role: 2},
+			{Ent: []int64{1}, Id: 1, Type: 1, Role: 0}, {Ent: []int64{1}, Id: 2, Type: 2, Role: 0}}}
+		peers = append(peers, p)
+		h = append(h, OpConnect(k), OpDiscoveryReply(k, p.Msg(0, nil)))
+	}
+	ctr := map[int64]int64{}
+	next := func(p int64) int64 { ctr[p]++; return 100*p + ctr[p] }
+	// pair j of peer p: its client feature j+1 (type j+1) with server feature j
+	cli := func(p Peer, j int) FAddr {
+		a := FAddr{Ent: e, Feat: int64(j) + 2}
+		if r.Chance(2, 3) {
+			a.Dev = p.Dev + 1
+		}
+		return a
+	}
+	mk := func(code int64, p Peer, j int) hx.Zs {
+		switch {
+		case code == 7 && !bind:
+			return OpSubCall(p.Ski, next(p.Ski), r.Bool(), cli(p, j), srv[j], int64(j)+2)
+		case code == 7:
+			return OpBindCall(p.Ski, next(p.Ski), r.Bool(), cli(p, j), srv[j], int64(j)+2)
+		case !bind:
+			return OpSubDelete(p.Ski, next(p.Ski), r.Bool(), cli(p, j), srv[j])
+		}
+		return OpBindDelete(p.Ski, next(p.Ski), r.Bool(), cli(p, j), srv[j])
+	}
+	lists := func(ps ...Peer) {
+		for _, p := range ps {
+			if bind {
+				h = append(h, OpListBinds(p.Ski))
+			} else {
+				h = append(h, OpListSubs(p.Ski))
+			}
+		}
+	}
+	for round := 0; round < r.Range(2, 5); round++ {
+		ai := r.Intn(len(peers))
+		bi := (ai + 1 + r.Intn(len(peers)-1)) % len(peers)
+		a, b := peers[ai], peers[bi]
+		ja := r.Intn(2)
+		// a gets something to delete (the request may be refused: already there, or - bindings -
+		// the server feature is taken; the delete is then refused and the call follows it)
+		if r.Chance(7, 8) {
+			h = append(h, mk(7, a, ja))
+		}
+		if !bind && r.Bool() {
+			h = append(h, mk(7, a, 1-ja))
+		}
+		jb := r.Intn(2)
+		if bind {
+			// a bind request for the server feature a is unbinding does not commute with the delete
+			// (refused before, granted after): only the other feature
+			jb = 1 - ja
+		}
+		var call hx.Zs
+		if r.Chance(5, 6) {
+			call = mk(7, b, jb)
+		} else {
+			call = mk(8, b, jb)
+		}
+		h = append(h, OpDuring(mk(8, a, ja), call))
+		lists(b, a)
+		h = append(h, OpSetData(e, int64(jb)+1, []int64{1, 3}[jb], int64(r.Range(1, 900))))
+	}
+	lists(peers...)
 	return h
 }
